@@ -97,7 +97,7 @@ def runchecks(sd, props, tier):
         if rc != 0:
             raise SystemExit("patch does not apply: " + o)
         for p in todo:
-            env = dict(os.environ, VERIF_REPO=wt)
+            env = dict(os.environ, VERIF_REPO=wt, VERIF_EVIDENCE_DIR=os.path.join(wt, ".verif-evidence"))
             rc, o = sh([os.path.join(VERIF, "bin", "check"), p, tier], env=env, timeout=7200)
             viol = [l for l in o.splitlines() if l.startswith("VIOLATION")]
             out[p] = {"rc": rc, "violations": len(viol), "tail": o.strip().splitlines()[-3:]}
